@@ -616,6 +616,8 @@ func sameStep(p, o Ev) bool {
 	return true
 }
 
+var from = 1
+
 func parseMode(a tr.Args) (config, int, error) {
 	cfg := config{kind: "mem", scale: 1, exact: true, seed: a.Seed, budget: 2 * time.Second, kbuf: 32768}
 	count := 2000
@@ -642,6 +644,8 @@ func parseMode(a tr.Args) (config, int, error) {
 			cfg.kbuf = v
 		case "count":
 			count = v
+		case "from":
+			from = v
 		default:
 			return cfg, 0, fmt.Errorf("unknown mode key %q", p[0])
 		}
@@ -656,6 +660,10 @@ func Run(a tr.Args) error {
 	if err != nil {
 		return err
 	}
+	if cfg.kind == "decchild" {
+		decChild(a.Seed, from, count)
+		return nil
+	}
 	w, err := tr.NewWriter(a.Out)
 	if err != nil {
 		return err
@@ -663,13 +671,19 @@ func Run(a tr.Args) error {
 	sum := tr.Summary{Component: "codecconn"}
 	notes := map[string]int{}
 	if cfg.kind == "dec" {
-		runDec(w, &sum, a.Seed, count, false)
+		if err := runDec(w, &sum, a.Seed, count); err != nil {
+			return err
+		}
 		sum.Events = w.N
 		if err := w.Close(); err != nil {
 			return err
 		}
 		sum.Print()
 		return nil
+	}
+	if cfg.scale < 1<<20 {
+		// a decoder that buffers a hostile declared length must not take the machine down
+		limitAddressSpace(3 << 30)
 	}
 	if cfg.kind != "mem" {
 		l, err := rawpeer.Listen()
